@@ -219,8 +219,10 @@ impl<'a> Printer<'a> {
                     InterM::SectionNumber(n) => format!("={n}"),
                     InterM::SectionBack(n) => format!("=~{n}"),
                 };
-                let a = self.blanks();
-                let b = self.blanks();
+                // the step may be wrapped inside the parentheses (not right before `=`: that line would be a
+                // section header)
+                let a = if inner.starts_with('=') { self.blanks() } else { self.brace_blanks() };
+                let b = self.brace_blanks();
                 s.push_str(&format!("({a}{inner}{b})"));
             }
             parts.push(s);
